@@ -8,6 +8,7 @@ import PqlModel.Props.C05ParseStatement
 import PqlModel.Props.C03Full
 import PqlModel.Props.C02EndToEnd
 import PqlModel.Props.C05Parsed
+import PqlModel.Props.C02EndToEndSource
 #print axioms Pql.C02.C02_canAttachSort_table
 #print axioms Pql.C02.C02_top_eq_sort_take
 #print axioms Pql.C02.C02_spec_top
@@ -50,3 +51,16 @@ import PqlModel.Props.C05Parsed
 #print axioms Pql.E2E.C02_end_to_end_program_partial
 #print axioms Pql.E2E.evalStatement_of_statementEq
 #print axioms Pql.E2E.evalS_not_invariant_under_normS
+#print axioms Pql.E2EFinal.C02_end_to_end_bytes
+#print axioms Pql.E2EFinal.C02_end_to_end_bytes_detail
+#print axioms Pql.E2EFinal.C02_compiled_no_bang
+#print axioms Pql.E2EFinal.C02_compiled_bang_free
+#print axioms Pql.E2EFinal.C02_parse_noBang
+#print axioms Pql.E2EFinal.C02_end_to_end_tree_raw_full
+#print axioms Pql.E2EFinal.C02_end_to_end_bytes_raw
+#print axioms Pql.E2EFinal.C02_end_to_end_run
+#print axioms Pql.E2EFinal.C05_parse_statement_program
+#print axioms Pql.E2EFinal.C02_end_to_end_program
+#print axioms Pql.E2EFinal.C02_end_to_end_program_bytes
+#print axioms Pql.E2EFinal.C02_end_to_end_program_bytes_detail
+#print axioms Pql.E2EFinal.C02_end_to_end_program_run
